@@ -420,6 +420,34 @@ def consume_replays_all(ctx, prog, B, modfile, tag):
             ctx.fail(o, calls[0], "consume_serialization_buffer replays %s with %s" % (nm, short(calls[0].node["fn"]["path"])))
 
 
+def prefix_extractor_domain(ctx, prog):
+    """RocksDB consults the prefix Bloom filter of an SST file only if both the stored rows and the seek target are in the
+    extractor's domain, and it trusts a negative answer.  A member row is `[len][key][element]`, the seek target `[len][key]`:
+    the domain test must accept every row whose seek target it accepts.  `key.len() >= 8` (a length header is present) does;
+    any upper bound on the ROW length does not - a short key with long members is then absent from the filter while its
+    seek target is in the domain, and a scan after the rows reached an SST file returns nothing."""
+    o = ctx.ob("C11.i", "rocksdb/prefix-extractor-domain-has-no-upper-bound", "K5", "the in_domain closure of the key-of-set prefix extractor tests only that the length header is present")
+    cl = [b for b in prog.find(r"create_key_of_set_prefix_extractor::\{closure#\d+\}$")]
+    outer = [b for b in prog.find(r"Impl::create_key_of_set_prefix_extractor$")]
+    if len(outer) != 1 or not cl:
+        ctx.fail(o, "(program)", "anchor missing: Impl::create_key_of_set_prefix_extractor and its in_domain closure (%d / %d)" % (len(outer), len(cl)))
+        return
+    ctx.touch(outer[0])
+    n = 0
+    for c in cl:
+        ctx.touch(c)
+        cmps = [(Site(c, bi, si), st["rv"]) for bi, blk in enumerate(c.blocks) if not blk["cleanup"] for si, st in enumerate(blk["stmts"])
+                if st["k"] == "assign" and st["rv"].get("k") == "bin" and st["rv"]["op"] in ("Ge", "Gt", "Le", "Lt", "Eq", "Ne")]
+        calls = [s_ for s_ in c.calls() if not re.search(r"slice::<impl \[T\]>::len$", s_.node["fn"]["path"])]
+        n += len(cmps) + len(calls)
+        bad = [x for x in cmps if not (x[1]["op"] in ("Ge", "Gt") and const_int(x[1]["b"]) in (8, 7))]
+        if len(cmps) != 1 or bad or calls:
+            ctx.fail(o, (bad or cmps or [(Site(c, 0, 0), None)])[0][0] if not calls else calls[0],
+                     "the domain test of the key-of-set prefix extractor does more than `len >= 8` (%d comparisons, %d calls): rows outside the domain are not in the SST prefix filter although "
+                     "their seek target is - a scan of a short key whose members are all long returns nothing once the rows were flushed" % (len(cmps), len(calls)))
+    o.sites = n
+
+
 def run(ctx):
     prog = ctx.prog
     ctx.run_clause("C11.a", lambda c: backend_rules(c, prog, "Fjall", "Fjall", "fjall", "fjall"))
@@ -440,6 +468,7 @@ def run(ctx):
         raise
     ctx.run_clause("C11.a", lambda c: backend_rules(c, rocks, "RocksDB", "RocksDB", "rocksdb", "rocksdb"))
     ctx.run_clause("C11.e", lambda c: upper_bound_tight(c, rocks))
+    ctx.run_clause("C11.i", lambda c: prefix_extractor_domain(c, rocks))
     ctx.run_clause("C11.d", lambda c: column_kind_agreement(c, rocks, "rocksdb", "rocksdb"))
     ctx.run_clause("C11.f", lambda c: operation_order(c, rocks, "rocksdb", "rocksdb"))
     ctx.run_clause("C11.g", lambda c: consume_replays_all(c, rocks, "RocksDB", "rocksdb", "rocksdb"))
